@@ -10,8 +10,7 @@ partial def loop (env : Env) (h : IO.FS.Stream) (out : IO.FS.Stream) : IO Unit :
   loop env h out
 
 def main : IO Unit := do
-  let env : Env := { builtins := defaultBuiltinNames,
-                     escTable := escapeHtmlTable.map (fun (c, s) => (c, s.toList)) }
+  let env : Env := {}
   let stdin ← IO.getStdin
   let stdout ← IO.getStdout
   loop env stdin stdout
